@@ -11,7 +11,7 @@ BT = [dict(rule='R8', lit='BTreeMap::new()', to='VBTreeMap::new()', note='BTreeM
 ITOA = [dict(rule='R5', lit='itoa::Buffer::new()', to='ItoaBuffer::new()', note='itoa shim'),
         dict(rule='R5', lit='buf.format(*value).as_bytes()', to='buf.format(*value).as_slice()', note='itoa shim returns Vec<u8>')]
 UNIT = dict(
-    properties=['C01', 'C03', 'C14', 'C19'],
+    properties=['C01', 'C03', 'C14', 'C19'],   # default tags; per-function `props` below override
     prelude=['io.rs', 'pdfobj.rs', 'containers.rs'],
     spec=['spec.rs', 'xrefspec.rs', 'docspec.rs'],
     types=[
@@ -19,6 +19,10 @@ UNIT = dict(
         dict(file='src/object.rs', kind='enum', name='StringFormat'),
         dict(file='src/object.rs', kind='struct', name='Stream'),
         dict(file='src/object.rs', kind='enum', name='Object'),
+        dict(file='src/content.rs', kind='struct', name='Operation', subst=[dict(rule='R12', lit='pub operator: String,', to='pub operator: std::string::String,', count=1, note='path made explicit')]),
+        dict(file='src/content.rs', kind='struct', name='Content', subst=[
+            dict(rule='R11', lit='pub struct Content<Operations: AsRef<[Operation]> = Vec<Operation>> {', to='pub struct Content {', count=1, note='generic parameter at its default Vec<Operation>'),
+            dict(rule='R11', lit='pub operations: Operations,', to='pub operations: Vec<Operation>,', count=1, note='generic parameter at its default')]),
         dict(file='src/writer.rs', kind='struct', name='CountingWrite'),
         dict(file='src/xref.rs', kind='enum', name='XrefType'),
         dict(file='src/writer.rs', kind='enum', name='XRefStreamFilter', structural=True),
@@ -33,20 +37,20 @@ UNIT = dict(
         dict(file='src/xref.rs', kind='struct', name='Xref', subst=[dict(rule='R8', lit='BTreeMap<u32, XrefEntry>', to='VBTreeMap<u32, XrefEntry>', note='BTreeMap model')]),
     ],
     functions=[
-        dict(file=W, impl='Write for CountingWrite<W>', emit_impl='impl<W: Write> Write for CountingWrite<W>', name='write', rules=dict(no_sink=True, subst=[
+        dict(file=W, impl='Write for CountingWrite<W>', emit_impl='impl<W: Write> Write for CountingWrite<W>', name='write', props=['C01', 'C03', 'C19'], rules=dict(no_sink=True, subst=[
             dict(rule='R17', lit='self.bytes_written += bytes;', to='self.bytes_written = counter_add(self.bytes_written, bytes);', count=1, note='byte counter cannot overflow')])),
-        dict(file=W, impl='Write for CountingWrite<W>', emit_impl='impl<W: Write> Write for CountingWrite<W>', name='write_all', rules=dict(no_sink=True, subst=[
+        dict(file=W, impl='Write for CountingWrite<W>', emit_impl='impl<W: Write> Write for CountingWrite<W>', name='write_all', props=['C01', 'C03', 'C19'], rules=dict(no_sink=True, subst=[
             dict(rule='R17', lit='self.bytes_written += buffer.len();', to='self.bytes_written = counter_add(self.bytes_written, buffer.len());', count=1, note='byte counter cannot overflow')])),
-        dict(file=W, impl='Write for CountingWrite<W>', emit_impl='impl<W: Write> Write for CountingWrite<W>', name='flush', rules=dict(no_sink=True)),
-        dict(file=X, impl='Xref', name='new', rules=dict(subst=BT)),
-        dict(file=X, impl='Xref', name='get'),
-        dict(file=X, impl='Xref', name='insert'),
-        dict(file=X, impl='XrefEntry', name='write_xref_entry'),
-        dict(file=X, impl='XrefSection', name='new'),
-        dict(file=X, impl='XrefSection', name='add_entry'),
-        dict(file=X, impl='XrefSection', name='add_unusable_free_entry'),
-        dict(file=X, impl='XrefSection', name='is_empty'),
-        dict(file=X, impl='XrefSection', name='write_xref_section'),
+        dict(file=W, impl='Write for CountingWrite<W>', emit_impl='impl<W: Write> Write for CountingWrite<W>', name='flush', props=['C01', 'C03', 'C19'], rules=dict(no_sink=True)),
+        dict(file=X, impl='Xref', name='new', props=['C01','C03','C19'], rules=dict(subst=BT)),
+        dict(file=X, impl='Xref', name='get', props=['C01','C03','C19']),
+        dict(file=X, impl='Xref', name='insert', props=['C01','C03','C19']),
+        dict(file=X, impl='XrefEntry', name='write_xref_entry', props=['C01', 'C03', 'C19']),
+        dict(file=X, impl='XrefSection', name='new', props=['C01','C03','C19']),
+        dict(file=X, impl='XrefSection', name='add_entry', props=['C01', 'C03', 'C19']),
+        dict(file=X, impl='XrefSection', name='add_unusable_free_entry', props=['C01', 'C03', 'C19']),
+        dict(file=X, impl='XrefSection', name='is_empty', props=['C01', 'C03', 'C19']),
+        dict(file=X, impl='XrefSection', name='write_xref_section', props=['C01', 'C03', 'C19']),
         dict(file=W, impl='Writer', name='need_separator', rules=dict(no_sink=True)),
         dict(file=W, impl='Writer', name='need_end_separator', rules=dict(no_sink=True)),
         dict(file=W, impl='Writer', name='write_object', rules=dict(subst=ITOA)),
@@ -55,8 +59,8 @@ UNIT = dict(
         dict(file=W, impl='Writer', name='write_array'),
         dict(file=W, impl='Writer', name='write_dictionary', rules=dict(loops={1: dict(kind='pairs', seq='dictionary.entries')})),
         dict(file=W, impl='Writer', name='write_stream'),
-        dict(file=W, impl='Writer', name='write_xref'),
-        dict(file=W, impl='Writer', name='create_xref_steam', rules=dict(subst=[
+        dict(file=W, impl='Writer', name='write_xref', props=['C01', 'C03', 'C19']),
+        dict(file=W, impl='Writer', name='create_xref_steam', props=['C01', 'C03', 'C19'], rules=dict(subst=[
             dict(rule='R5', lit='xref_stream.extend(obj_id.to_be_bytes());', to='extend_be_u32(&mut xref_stream, obj_id);', count=2, note='to_be_bytes shim'),
             dict(rule='R5', lit='xref_stream.extend(vec![0, 0]);', to='extend_vec(&mut xref_stream, vec![0, 0]);', count=1, note='Vec::extend shim'),
             dict(rule='R5', lit='xref_stream.extend(65535_u16.to_be_bytes());', to='extend_be_u16(&mut xref_stream, 65535_u16);', count=1, note='to_be_bytes shim'),
@@ -67,19 +71,22 @@ UNIT = dict(
             dict(rule='R5', lit='entry.clone()', to='clone_xref_entry(entry)', count=1, note='derived Clone is structural identity'),
             dict(rule='R15', pat=r'xref_stream = xref_stream\s*\.iter\(\)\s*\.flat_map\(\|c\| format!\("\{:02X\}", c\)\.as_bytes\(\)\.to_vec\(\)\)\s*\.collect::<Vec<u8>>\(\);', to='xref_stream = ascii_hex_encode(xref_stream);', count=1, note='ASCIIHex branch (dead: the only caller passes XRefStreamFilter::None) replaced by an uninterpreted shim'),
         ])),
-        dict(file=W, impl='Writer', name='write_indirect_object'),
-        dict(file='src/incremental_document.rs', impl='IncrementalDocument', name='get_prev_documents', rules=dict(no_sink=True)),
-        dict(file='src/incremental_document.rs', impl='IncrementalDocument', name='get_prev_documents_bytes', rules=dict(no_sink=True)),
-        dict(file=W, impl='Document', name='write_trailer', rules=dict(subst=[
+        dict(file=W, impl='Writer', name='write_indirect_object', props=['C01', 'C03', 'C19']),
+        dict(file='src/incremental_document.rs', impl='IncrementalDocument', name='get_prev_documents', props=['C03','C07','C19'], rules=dict(no_sink=True)),
+        dict(file='src/incremental_document.rs', impl='IncrementalDocument', name='get_prev_documents_bytes', props=['C03','C07','C19'], rules=dict(no_sink=True)),
+        dict(file=W, impl='Document', name='write_trailer', props=['C01', 'C03', 'C19'], rules=dict(subst=[
             dict(rule='R11', lit='i64::from(self.max_id + 1));', to='Object::Integer((self.max_id + 1) as i64));', count=1, note='Into<Object> at i64 made concrete (object.rs:64 From<i64>)')])),
-        dict(file=W, impl='Document', name='write_cross_reference_stream', rules=dict(subst=[
+        dict(file=W, impl='Document', name='write_cross_reference_stream', props=['C01', 'C03', 'C19'], rules=dict(subst=[
             dict(rule='R11', lit='i64::from(self.max_id + 1));', to='Object::Integer((self.max_id + 1) as i64));', count=1, note='Into<Object> at i64 made concrete'),
             dict(rule='R11', lit='stream_length as i64);', to='Object::Integer(stream_length as i64));', count=1, note='Into<Object> at i64 made concrete'),
             dict(rule='R5', lit='trailer.clone()', to='clone_dictionary(trailer)', count=1, note='derived Clone is structural identity'),
         ])),
-        dict(file=W, impl='Document', name='save_internal', rules=dict(loops={1: dict(kind='idpairs', seq='self.objects.entries')}, pre_subst=[SIG], subst=[SKIP, CW0, TARGET, VERS])),
-        dict(file=W, impl='IncrementalDocument', name='save_internal', rules=dict(loops={1: dict(kind='idpairs', seq='self.new_document.objects.entries')}, pre_subst=[SIG], subst=[SKIP, CW0, TARGET, VERS2, dict(rule='R17', lit='target.bytes_written += prev_document_bytes.len();', to='target.bytes_written = counter_add(target.bytes_written, prev_document_bytes.len());', count=1, note='byte counter cannot overflow')])),
-        dict(file=W, impl='Writer', name='write_binary_mark', rules=dict(subst=[
+        dict(file=W, impl='Document', name='save_internal', props=['C01','C03','C19'], rules=dict(loops={1: dict(kind='idpairs', seq='self.objects.entries')}, pre_subst=[SIG], subst=[SKIP, CW0, TARGET, VERS])),
+        dict(file=W, impl='IncrementalDocument', name='save_internal', props=['C03','C07','C19'], rules=dict(loops={1: dict(kind='idpairs', seq='self.new_document.objects.entries')}, pre_subst=[SIG], subst=[SKIP, CW0, TARGET, VERS2, dict(rule='R17', lit='target.bytes_written += prev_document_bytes.len();', to='target.bytes_written = counter_add(target.bytes_written, prev_document_bytes.len());', count=1, note='byte counter cannot overflow')])),
+        dict(file='src/content.rs', impl=r're:^impl<Operations: AsRef<\[Operation\]>> Content<Operations> \{', emit_impl='impl Content', key_impl='Content', name='encode', props=['C14', 'C01'], rules=dict(
+            pre_subst=[dict(rule='R11', lit='self.operations.as_ref()', to='self.operations', count=1, note='AsRef<[Operation]> at Vec<Operation>')],
+            subst=[dict(rule='R5', lit='operation.operator.as_bytes()', to='string_as_bytes(&operation.operator)', count=1, note='String::as_bytes shim')])),
+        dict(file=W, impl='Writer', name='write_binary_mark', props=['C01', 'C03', 'C19'], rules=dict(subst=[
             dict(rule='R10', lit='binary_mark.iter().all(|&byte| byte >= 128)', to='all_ge_128(binary_mark)', note='iter().all template'),
             dict(rule='R7', pat=r'Err\(std::io::Error::new\(\s*std::io::ErrorKind::InvalidData,\s*"Invalid binary mark",\s*\)\)', to='Err(IoError)', note='error payload dropped'),
         ])),
